@@ -312,7 +312,11 @@ def _r3(ctx):
     # get_value returns the cell's value
     tg = Tracer(sb_get)
     gcalls = [(bi, t) for bi, t in sb_get.calls() if call_matches(t, 'SharedValue::get_value')]
-    okg = len(gcalls) == 1 and gcalls[0][1]['dest']['l'] == 0
+    okg = len(gcalls) == 1
+    if okg and gcalls[0][1]['dest']['l'] != 0:
+        # the value may reach the return slot through temporaries (a spliced `impl From<&StandardBasis> for f64`)
+        ro = tg.origin({'k': 'copy', 'l': 0, 'p': []})
+        okg = ro['o'] == 'call' and ro.get('bb') == gcalls[0][0] and not ro['p']
     if okg:
         o = tg.origin(gcalls[0][1]['args'][0])
         okg = o['o'] == 'arg' and field_path(o['p']) == ['value']
